@@ -214,6 +214,29 @@ pub enum Lay {
     Step2,
     /// reversed (negative strides)
     Rev,
+    /// general case: `perm` = memory order of the axes (number of the permutation of the n axes
+    /// in lexicographic order, taken modulo n!), `rev` / `step` = bit a set: logical axis a is
+    /// reversed / takes every second element; a window inside a larger poison-filled allocation.
+    /// Covers what the other variants cannot: trailing axes permuted among themselves, only some
+    /// axes reversed or stepped.
+    Mix { perm: u16, rev: u8, step: u8 },
+}
+
+/// the k-th permutation of 0..n in lexicographic order (k taken modulo n!)
+pub fn nth_perm(n: usize, k: usize) -> Vec<usize> {
+    let mut fact = vec![1usize; n + 1];
+    for i in 1..=n {
+        fact[i] = fact[i - 1] * i;
+    }
+    let mut k = if n == 0 { 0 } else { k % fact[n] };
+    let mut pool: Vec<usize> = (0..n).collect();
+    let mut out = vec![];
+    for i in (0..n).rev() {
+        let j = k / fact[i];
+        k %= fact[i];
+        out.push(pool.remove(j));
+    }
+    out
 }
 
 #[derive(Serialize, Deserialize, Clone, Debug, PartialEq)]
